@@ -3,6 +3,7 @@ import PPLV.Checked.ProofsBounded
 import PPLV.Checked.ProofsPre
 import PPLV.Checked.ProofsSpec
 import PPLV.Checked.ProofsExt3
+import PPLV.Checked.ProofsConv
 /-!
 # C11 — checked arithmetic reports true rounding relations; bounded builds never lie
 
@@ -203,6 +204,34 @@ theorem smod2exp_holds {t : IntTy} {π : Policy} (c : Cfg t π) (dir : Dir) (a :
 
 example : IntOp.run .i8 .checkOverflowOnly .smod2exp .down { x := 100, e := 7 } = (-28, V_EQ) := by decide
 example : IntOp.run .u8 .checkOverflowOnly .smod2exp .up { x := 200, e := 8 } = (0, V_LT_INF) := by decide
+
+/-! ## the rounding steps and the conversions from GMP numbers -/
+
+/-- `round_lt_int`: the stored integer `s` is above the exact result `q` and within one unit of it -/
+theorem round_lt_int_holds {t : IntTy} {π : Policy} (c : Cfg t π) (dir : Dir) {s : Int} (hf : t.finite π s) {q : Rat}
+    (hlt : q < (s : Rat)) (hgt : ((s - 1 : Int) : Rat) < q) : OKQ t π dir (roundLt t π s dir) (.fin q) :=
+  roundLt_okq c.wf dir hf hlt hgt
+
+/-- `round_gt_int`: the stored integer `s` is below the exact result `q` and within one unit of it -/
+theorem round_gt_int_holds {t : IntTy} {π : Policy} (c : Cfg t π) (dir : Dir) {s : Int} (hf : t.finite π s) {q : Rat}
+    (hgt : (s : Rat) < q) (hlt : q < ((s + 1 : Int) : Rat)) : OKQ t π dir (roundGt t π s dir) (.fin q) :=
+  roundGt_okq c.wf dir hf hgt hlt
+
+example : roundLt .i8 .extended (-126) .down = (-128, V_GT_MINUS_INFINITY) := by decide
+example : roundGt .u8 .checkOverflowOnly 255 .up = (255, V_LT_PLUS_INFINITY.orUnrep) := by decide
+
+/-- `assign_r(to, mpz_class)` (by its effect: a range test on the value) -/
+theorem assign_mpz_holds {t : IntTy} {π : Policy} (c : Cfg t π) (dir : Dir) {to0 : Int} (h0 : t.inRange to0) (v : Int) :
+    OKQ t π dir (assignMpz t π to0 v dir) (.fin (v : Rat)) :=
+  ok_toQ (e := .fin v) (tri_ok c.wf h0 (assignMpz_tri c.checkOverflow dir to0 v))
+
+/-- `assign_r(to, mpq_class)`: truncating division, range test, `round_lt_int` / `round_gt_int` -/
+theorem assign_mpq_holds {t : IntTy} {π : Policy} (c : Cfg t π) (dir : Dir) {to0 n d : Int} (h0 : t.inRange to0)
+    (hd : 0 < d) : OKQ t π dir (assignMpq t π to0 n d dir) (.fin ((n : Rat) / (d : Rat))) :=
+  assignMpq_okq c.wf c.checkOverflow dir h0 hd
+
+example : assignMpq .i8 .extended 0 (-253) 2 .down = (-128, V_GT_MINUS_INFINITY) := by decide
+example : assignMpq .i8 .checkOverflowOnly 0 255 2 .up = (127, V_LT_PLUS_INFINITY.orUnrep) := by decide
 
 /-! ## division: wrong for a negative divisor -/
 
